@@ -2,6 +2,7 @@
 import Reamber.Util.Json
 import Reamber.Model.Qua
 import Reamber.Spec.Qua
+import Reamber.Model.QuaText
 
 open Lean Reamber.J
 
@@ -104,6 +105,62 @@ def chartToJson (c : Chart) : Json :=
        ("bpms", listToJson (fun b => Json.arr #[ratToJson b.offset, ratToJson b.bpm, ratToJson b.metronome]) c.bpms),
        ("svs", listToJson (fun s => Json.arr #[ratToJson s.offset, ratToJson s.multiplier]) c.svs)]
 
+
+/-! text layer (Model/QuaText.lean); wire:
+  Sc   : {"t":"null"} | {"t":"bool","v":b} | {"t":"int","v":n} | {"t":"flt","lex":s} | {"t":"str","v":s}
+  V    : Sc | {"t":"empty"} | {"t":"recs","v":[[[key, V']…]…]}
+  Tree : [[key, V]…] -/
+
+open Reamber.QuaText in
+def scOfJson (j : Json) : Except String Sc := do
+  let t ← getStr j "t"
+  match t with
+  | "null" => .ok .null
+  | "bool" => do .ok (.bool (← getBool j "v"))
+  | "int" => do .ok (.int (← getInt j "v"))
+  | "flt" => do .ok (.flt (← getStr j "lex").toList)
+  | "str" => do .ok (.str (← getStr j "v").toList)
+  | _ => .error s!"scalar expected, got tag {t}"
+
+open Reamber.QuaText in
+def scToJson : Sc → Json
+  | .null => obj [("t", Json.str "null")]
+  | .bool b => obj [("t", Json.str "bool"), ("v", Json.bool b)]
+  | .int i => obj [("t", Json.str "int"), ("v", intToJson i)]
+  | .flt l => obj [("t", Json.str "flt"), ("lex", Json.str (String.ofList l)),
+                   ("val", optToJson ratToJson (fltVal l))]
+  | .str s => obj [("t", Json.str "str"), ("v", Json.str (String.ofList s))]
+
+open Reamber.QuaText in
+def entriesOfJson {β} (f : Json → Except String β) (j : Json) : Except String (List (List Char × β)) :=
+  arrOf? (fun e => match e with
+    | Json.arr #[k, v] => do .ok ((← strOf? k).toList, ← f v)
+    | _ => .error s!"entry expected [key, value]: {e}") j
+
+open Reamber.QuaText in
+def vOfJson {α} (f : Json → Except String α) (j : Json) : Except String (V α) := do
+  let t ← getStr j "t"
+  match t with
+  | "empty" => .ok .empty
+  | "recs" => do .ok (.recs (← getArr (entriesOfJson f) j "v"))
+  | _ => do .ok (.sc (← scOfJson j))
+
+open Reamber.QuaText in
+def entriesToJson {β} (f : β → Json) (es : List (List Char × β)) : Json :=
+  listToJson (fun kv => Json.arr #[Json.str (String.ofList kv.1), f kv.2]) es
+
+open Reamber.QuaText in
+def vToJson {α} (f : α → Json) : V α → Json
+  | .sc s => scToJson s
+  | .empty => obj [("t", Json.str "empty")]
+  | .recs l => obj [("t", Json.str "recs"), ("v", listToJson (entriesToJson f) l)]
+
+open Reamber.QuaText in
+def treeOfJson (j : Json) : Except String Tree := entriesOfJson (vOfJson (vOfJson scOfJson)) j
+
+open Reamber.QuaText in
+def treeToJson (t : Tree) : Json := entriesToJson (vToJson (vToJson scToJson)) t
+
 def resToJson {α} (f : α → Json) : Except Err α → Json
   | .ok v => okJson (f v)
   | .error e => errJson e.toString
@@ -147,6 +204,26 @@ def handle (op : String) (j : Json) : Except String Json := do
   | "c06.tags" =>
     let s ← getStr j "s"
     .ok (okJson (listToJson Json.str (tagsOf s)))
+  -- text layer
+  | "c06.emit_text" =>
+    let t ← treeOfJson (← field j "tree")
+    .ok (okJson (obj [("text", optToJson Json.str (QuaText.emitQua t)),
+                      ("doc", optToJson docToJson (QuaText.treeDoc t)),
+                      ("nodup", Json.bool (QuaText.treeNodup t)),
+                      ("bad", listToJson (fun L => Json.str (String.ofList L.key))
+                                ((QuaText.emitTree t).filter (fun L => (QuaText.renderLine L).isNone)))]))
+  | "c06.emit_entries" =>
+    let t ← treeOfJson (← field j "tree")
+    .ok (okJson (listToJson (fun e => optToJson Json.str (QuaText.emitQua [e])) t))
+  | "c06.parse_segments" =>
+    let segs ← getArr strOf? j "segs"
+    .ok (okJson (listToJson (fun s => optToJson treeToJson (QuaText.parseQua s)) segs))
+  | "c06.parse_text" =>
+    let s ← getStr j "text"
+    let t := QuaText.parseQua s
+    .ok (okJson (obj [("tree", optToJson treeToJson t),
+                      ("doc", optToJson docToJson (t.bind QuaText.treeDoc)),
+                      ("reemit", optToJson Json.str (t.bind QuaText.emitQua))]))
   | _ => .error s!"unknown op {op}"
 
 end Reamber.C06
